@@ -12,6 +12,13 @@ beside it). Keys are **canonical** paths; every system call takes a *syntactic* 
 component by component, following symlinks (relative and absolute targets, `.`/`..`) under a budget of 40 expansions
 (`ELOOP`), the last component being followed or not depending on the call.
 
+*Hard links.* A regular file whose inode has (or had, when the state was recorded) more than one name is the node
+`hard ino mode content` under each of its names; names with the same `ino` are the same file. A system call that acts
+on the *inode* through one name (`chmod`) acts on every name of it (`chmodIno`); a call that acts on the *name*
+(`unlink`) removes that name only and leaves the inode's other names exactly as they were. A private regular file (one
+name) stays `file mode content`. In-place `fs::write` through a name of a shared inode is outside the model
+(`unsupported`, like a write through a symlink): `request` writes `<name>.toml` only where no file stands.
+
 *Permissions* are a parameter `root : Bool`: as root nothing is denied; otherwise search (x) on every directory walked
 through, read (r) to list a directory, write+search on the parent to create or remove an entry, owner bits only, every
 node owned by the caller (so `chmod` is always allowed). ACLs, sticky bits, mount points are out (DESIGN §7 C11).
@@ -31,6 +38,8 @@ inductive Node where
   | file (mode : Nat) (content : Bytes)
   | dir (mode : Nat)
   | link (target : Bytes)
+  /-- one name of the regular file with inode `ino`, which has other names as well (hard links) -/
+  | hard (ino : Nat) (mode : Nat) (content : Bytes)
 deriving DecidableEq, Repr
 
 abbrev FS := List (Path × Node)
@@ -56,6 +65,16 @@ def isDirAt (fs : FS) (p : Path) : Bool :=
 def isLinkAt (fs : FS) (p : Path) : Bool :=
   match fget fs p with
   | some (.link _) => true
+  | _ => false
+
+def Node.isHard : Node → Bool
+  | .hard _ _ _ => true
+  | _ => false
+
+/-- a name of a regular file that has other names as well -/
+def isHardAt (fs : FS) (p : Path) : Bool :=
+  match fget fs p with
+  | some (.hard _ _ _) => true
   | _ => false
 
 /-- `a` is a prefix of `b` (component-wise) -/
@@ -157,6 +176,7 @@ def walkComps (root : Bool) (fs : FS) (follow : Bool) : Path → List Comp → S
         else .expand (if isAbs tgt then [] else cur) (compsOf tgt ++ rest)
       | some (.dir _) => walkComps root fs follow (cur ++ [x]) rest
       | some (.file _ _) => if rest.isEmpty then .done (cur ++ [x]) else .err .notDir
+      | some (.hard _ _ _) => if rest.isEmpty then .done (cur ++ [x]) else .err .notDir
     else .err .access
 
 def walk (root : Bool) (fs : FS) (follow : Bool) : Nat → Path → List Comp → Except Err Path
@@ -199,13 +219,23 @@ def isDirB (root : Bool) (fs : FS) (p : Path) : Bool :=
 
 /-! ## System calls -/
 
-/-- `fs::set_permissions` (follows links; the caller owns every node) -/
+/-- the mode of inode `i` becomes `m` -/
+def Node.remode (i m : Nat) : Node → Node
+  | .hard j m' c => if j = i then .hard j m c else .hard j m' c
+  | v => v
+
+/-- `chmod` on the inode `i`: the new mode shows under every one of its names -/
+def chmodIno (i m : Nat) (fs : FS) : FS := fs.map (fun kv => (kv.1, kv.2.remode i m))
+
+/-- `fs::set_permissions` (follows links; the caller owns every node). The mode belongs to the inode: through a name of
+a shared inode every other name of it changes as well. -/
 def chmod (root : Bool) (fs : FS) (p : Path) (m : Nat) : Except Err FS :=
   match stat root fs p with
   | .error e => .error e
   | .ok (q, .file _ c) => .ok (fset fs q (.file m c))
   | .ok (q, .dir _) => .ok (fset fs q (.dir m))
   | .ok (_, .link _) => .ok fs
+  | .ok (_, .hard i _ _) => .ok (chmodIno i m fs)
 
 def stripPre : Path → Path → Option Path
   | [], k => some k
@@ -229,7 +259,7 @@ def readDir (root : Bool) (fs : FS) (p : Path) : Except Err (List (Name × Bool)
     else .error .access
   | .ok _ => .error .notDir
 
-/-- `fs::remove_file` -/
+/-- `fs::remove_file`: the *name* goes; a shared inode's other names (their mode, their content) are not touched -/
 def unlink (root : Bool) (fs : FS) (p : Path) : Except Err FS :=
   match lstat root fs p with
   | .error e => .error e
@@ -290,12 +320,14 @@ def mkdirAll (root : Bool) : Nat → FS → Path → Except Err FS
           | .error e2 => if isDirB root fs1 p then .ok fs1 else .error e2
       else if isDirB root fs p then .ok fs else .error e
 
-/-- `fs::write` (create or truncate, umask 022). Writing *through* a symlink is outside the model (`unsupported`). -/
+/-- `fs::write` (create or truncate, umask 022). Writing *through* a symlink, or in place through a name of a shared
+inode, is outside the model (`unsupported`). -/
 def writeFile (root : Bool) (fs : FS) (p : Path) (content : Bytes) : Except Err FS :=
   match lstat root fs p with
   | .ok (q, .file m _) => if root || bit m 128 then .ok (fset fs q (.file m content)) else .error .access
   | .ok (_, .dir _) => .error .isDir
   | .ok (_, .link _) => .error .unsupported
+  | .ok (_, .hard _ _ _) => .error .unsupported
   | .error e =>
     if e = .notFound then
       match p.getLast? with
@@ -317,6 +349,7 @@ def readFile (root : Bool) (fs : FS) (p : Path) : Except Err Bytes :=
   match stat root fs p with
   | .error e => .error e
   | .ok (_, .file m c) => if root || bit m 256 then .ok c else .error .access
+  | .ok (_, .hard _ m c) => if root || bit m 256 then .ok c else .error .access
   | .ok (_, .dir _) => .error .isDir
   | .ok (_, .link _) => .error .loop
 
